@@ -191,13 +191,20 @@ def symbol(universe, baselines, call, r):
     return "%s:?unlike-any-fresh-process-result" % st
 
 
+_HANGS = [0]
+
+
 def run_plan(universe, paths, plan, schedule):
     """plan: {"t1": [calls], ...}; one fresh gqlv process."""
     threads = []
     for t in sorted(plan):
         threads.append({"id": int(t[1:]), "calls": [{"call": c, "job": call_job(universe, paths, c)} for c in plan[t]]})
     job = {"id": 0, "threads": threads, "schedule": [int(t[1:]) for t in schedule] if schedule else None}
-    res = vlib.gqlv_isolated("threads", job, timeout=120, cwd=paths["cwd"])
+    if _HANGS[0] >= 3:
+        return {"skipped": True}       # three runs already hung: the verdict is in, do not wait for hundreds more
+    res = vlib.gqlv_isolated("threads", job, timeout=30, cwd=paths["cwd"])
+    if res.get("timeout"):
+        _HANGS[0] += 1
     return res
 
 
@@ -385,6 +392,8 @@ def main(tier, replay=None, selftest=False):
 
     def check_run(kind, case, run, plan, expect_hist=None):
         nonlocal nruns
+        if run.get("skipped"):
+            return
         nruns += 1
         name = "%s-%s" % (kind, vlib.stable_hash([plan, case.get("acq")]))
         if run.get("timeout") or run.get("result") is None or run.get("rc") != 0:
